@@ -28,11 +28,15 @@ func (c *Ctx) newRef(hint string) string {
 	// distinct from pointer-like parameters
 	for _, p := range c.fn.Params {
 		pv := c.vals[p]
-		if pv != nil && pv.K == VScalar && c.scalarSort(pv.T) == "Int" && !isString(pv.T) {
-			c.asserts = append(c.asserts, sNot(sEq(r, pv.S)))
+		if pv == nil {
+			continue
 		}
-		if pv != nil && pv.K == VSlice {
-			c.asserts = append(c.asserts, sNot(sEq(r, pv.Arr)))
+		var ts, ss []string
+		c.flatten(pv, &ts, &ss)
+		for i := range ts {
+			if ss[i] == "Int" {
+				c.asserts = append(c.asserts, sNot(sEq(r, ts[i])))
+			}
 		}
 	}
 	c.allocRefs = append(c.allocRefs, r)
